@@ -212,9 +212,8 @@ static void program(Rng& r) {
 
 // long-stream accuracy: distinct random values, rank error against the exact rank
 template<typename T>
-static void accuracy_cell(Rng& r) {
+static void accuracy_cell(Rng& r, bool huge_k) {
   const bool TH = G().thorough();
-  const bool huge_k = r.chance(0.25);
   const uint16_t k = huge_k ? uint16_t(r.pick({20000, 32768, 32800, 50000, 65535})) : uint16_t(r.pick({50, 100, 200, 400}));
   if (huge_k) count("accuracy_cells_huge_k");
   const uint64_t n = huge_k ? 600000 : (TH ? 1000000 : 150000);
@@ -263,6 +262,25 @@ static void accuracy_cell(Rng& r) {
   const uint32_t cc = centroid_count(td);
   VF_CHECK(cc <= 3u * k + 50u, K + "centroid-count-unbounded", G().cur_desc + " centroids=" + std::to_string(cc));
   count("accuracy_cells");
+  {  // the image of this (possibly > 1024-centroid) digest read back through both paths is the same digest, and continues
+    const std::string KR = std::string("tdigest|") + tname<T>() + "|accuracy-roundtrip|";
+    std::stringstream ss; td.serialize(ss, r.coin());
+    tdigest<T> viastream = tdigest<T>::deserialize(ss);
+    auto bytes = td.serialize(0, r.coin());
+    tdigest<T> viabytes = tdigest<T>::deserialize(bytes.data(), bytes.size());
+    for (tdigest<T>* rt : {&viastream, &viabytes}) {
+      const char* path = rt == &viastream ? "stream" : "bytes";
+      VF_CHECK(rt->get_total_weight() == n, KR + "total-weight", G().cur_desc + " path=" + path + " got=" + std::to_string(rt->get_total_weight()));
+      VF_CHECK(centroid_count(*rt) == cc, KR + "centroid-count", G().cur_desc + " path=" + path);
+      VF_CHECK(rt->get_min_value() == td.get_min_value() && rt->get_max_value() == td.get_max_value(), KR + "min-max", G().cur_desc + " path=" + path);
+      bool same = true;
+      for (int i = 0; i <= 50 && same; ++i) { const T x = static_cast<T>(v[std::min<uint64_t>(n - 1, n * i / 50)]); if (rt->get_rank(x) != td.get_rank(x)) same = false; }
+      VF_CHECK(same, KR + "rank-differs-from-original", G().cur_desc + " path=" + path);
+      for (int i = 0; i < 1000; ++i) rt->update(static_cast<T>(r.unit()));
+      VF_CHECK(rt->get_total_weight() == n + 1000, KR + "total-weight-after-continuing", G().cur_desc + " path=" + path + " got=" + std::to_string(rt->get_total_weight()));
+    }
+    if (cc > 1024) count("roundtrip_more_than_1024_centroids");
+  }
   // record the measured ratios for calibration (max over run, in 1/1000 of the bound)
   G().counters["max_acc_mid_permille"] = std::max<uint64_t>(G().counters["max_acc_mid_permille"], uint64_t(1000 * worst_mid / mid_bound));
   G().counters["max_acc_tail_permille"] = std::max<uint64_t>(G().counters["max_acc_tail_permille"], uint64_t(1000 * worst_tail / tail_bound));
@@ -365,11 +383,35 @@ static void tiny_weight_large_k_scenario(Rng& r) {
   count("tiny_weight_large_k_scenarios");
 }
 
+
+// total weight beyond 2^32 (the float instantiation keeps centroid weights in 32 bits): a digest merged with a
+// copy of itself until n passes 2^32; every step conserves weight and the extremes
+template<typename T>
+static void doubling_scenario(Rng& r) {
+  const uint16_t k = uint16_t(r.range(100, 300));
+  const uint64_t n0 = uint64_t(r.range(20000, 60000));
+  describe(std::string("doubling ") + tname<T>() + " k=" + std::to_string(k) + " n0=" + std::to_string(n0));
+  tdigest<T> td(k); Model<T> m;
+  std::vector<T> stream; gen_stream<T>(r, int(r.below(9)), n0, stream);
+  for (T v : stream) { td.update(v); m.add(v); }
+  int steps = 0;
+  while (m.n < (uint64_t(3) << 31)) {
+    tdigest<T> copy(td);
+    if (r.coin()) td.merge(copy); else { tdigest<T> c2(copy); td.merge(c2); }
+    m.n *= 2; ++steps;
+    if (m.n >= (uint64_t(1) << 30) || r.chance(0.2)) observe(td, m, r, "merge with a copy of itself, step " + std::to_string(steps), k);
+  }
+  // (no accuracy clause here: error accumulates legitimately over 17+ re-clusterings of identical digests - measured 1-3 %
+  //  at the median on the unchanged tree; the accuracy clause is decided by the accuracy cells on single streams and 4-way merges)
+  count("doubling_scenarios_beyond_2p32");
+}
+
 void run_case(uint64_t idx, Rng& r) {
+  if (idx % 50 == 9) { if (r.coin()) doubling_scenario<double>(r); else doubling_scenario<float>(r); return; }
   if (idx % 10 == 5) { if (r.coin()) tiny_weight_large_k_scenario<double>(r); else tiny_weight_large_k_scenario<float>(r); return; }
   if (idx % 10 == 7) { if (r.coin()) frequent_query_scenario<double>(r); else frequent_query_scenario<float>(r); return; }
   if (idx % 10 == 3) { if (r.coin()) empty_target_scenario<double>(r); else empty_target_scenario<float>(r); return; }
-  if (idx % 100 == 31) { if (r.coin()) accuracy_cell<double>(r); else accuracy_cell<float>(r); return; }
+  if (idx % 100 == 31) { const bool huge_k = (idx / 100) % 4 == 0; if (r.coin()) accuracy_cell<double>(r, huge_k); else accuracy_cell<float>(r, huge_k); return; }
   if (idx % 400 == 76) { shipped<double>(r, "tdigest_ref_k100_n10000_double.sk"); shipped<float>(r, "tdigest_ref_k100_n10000_float.sk"); return; }
   if (r.coin()) program<double>(r); else program<float>(r);
 }
